@@ -48,7 +48,7 @@ FENCE_ORDS = ["acq", "rel", "ar", "sc"]
 def render(cfg, threads):
     """cfg: dict of header items; threads: list of lists of op strings"""
     head = "cfg " + " ".join(f"{k}={v}" for k, v in cfg.items())
-    return head + " | " + " | ".join(f"T{i}: " + "; ".join(ops) for i, ops in enumerate(threads))
+    return head + " | " + " | ".join((f"T{i}: " + "; ".join(ops)).rstrip() for i, ops in enumerate(threads))
 
 
 def frame(bodies, main_pre=None, main_post=None, join=True):
@@ -159,7 +159,7 @@ def gen_sync(r, maxops=4):
             elif k < 90:
                 ops.append(rand_atomic_op(r, nx, vs, allow_fence=False))
             else:
-                ops.append("yield")
+                ops.append(rand_atomic_op(r, nx, vs, allow_fence=False))
         while held_m:
             ops.append(f"unlock {held_m.pop()}")
         if held_r:
@@ -196,7 +196,7 @@ def gen_wait(r):
         main = n if r.chance(3, 4) else []
         return render({"n": 1}, frame(bodies, main, []))
     if kind == 2:
-        bodies = [["park", "crd 0"]] + [["yield"] for _ in range(nthreads - 2)]
+        bodies = [["park", "crd 0"]] + [["crd 0"] for _ in range(nthreads - 2)]
         main = ["cwr 0 1", "unpark 1"]
         if r.chance(1, 3):
             main = ["unpark 1", "cwr 0 1"]
@@ -229,7 +229,7 @@ def gen_arc(r):
             ops.append(f"adrop {t}")
         bodies.append(ops)
     spawn_first = [f"spawn {i+1}" for i in range(nthreads - 1)]
-    mid = [r.choice(["acount 0", "agetmut 0", "yield"]) for _ in range(r.below(3))]
+    mid = [r.choice(["acount 0", "agetmut 0"]) for _ in range(r.below(3))]
     tail = ["adrop 0"] if r.chance(4, 5) else []
     joins = [f"join {i+1}" for i in range(nthreads - 1)]
     if r.chance(1, 2):
